@@ -656,11 +656,12 @@ Fixpoint oracle_walk (max max_hls : N) (cur : option open_block) (rs : list rfc_
          (is : list ievent) : bool :=
   match rs with
   | [] =>
-      (* the reference has nothing more to say: neither may the implementation (an error is
-         tolerated: limits such as the CONTINUATION flood act on incomplete blocks) *)
-      match is with
-      | [] => true
-      | e :: _ => ievent_is_error e
+      (* the reference has nothing more to say: neither may the implementation, except for an error
+         that h2's own limits / content checks justify on a block that is still open *)
+      match is, cur with
+      | [], _ => true
+      | e :: _, Some o => ievent_is_error e && partial_error_plausible max_hls (open_block_octets o) e
+      | _ :: _, None => false
       end
   | RReject code :: _ =>
       let fr := match frames with f :: _ => f | [] => [] end in
@@ -683,19 +684,18 @@ Fixpoint oracle_walk (max max_hls : N) (cur : option open_block) (rs : list rfc_
                 if eh then
                   match is with
                   | e :: is' =>
-                      if ievent_is_error e then header_error_plausible max_hls (open_close (open_extend o frag))
+                      if ievent_is_error e
+                      then header_error_plausible max_hls (open_close (open_extend o frag))
+                           || partial_error_plausible max_hls (open_block_octets (open_extend o frag)) e
                       else header_event_matches (open_close (open_extend o frag)) max_hls e
                            && oracle_walk max max_hls None rs' frames' is'
                   | [] => false
                   end
                 else
                   (* a limit (flood, size) may strike in the middle of a block *)
-                  match is with
-                  | e :: _ => if ievent_is_error e
-                              then partial_error_plausible max_hls (open_block_octets (open_extend o frag)) e
-                              else oracle_walk max max_hls (Some (open_extend o frag)) rs' frames' is
-                  | [] => oracle_walk max max_hls (Some (open_extend o frag)) rs' frames' is
-                  end
+                  (* an error event seen now may belong to a later frame: it is judged where the
+                     reference refuses a frame, where the block completes, or at the end *)
+                  oracle_walk max max_hls (Some (open_extend o frag)) rs' frames' is
               else expect_error
           | _ => expect_error
           end
@@ -704,17 +704,9 @@ Fixpoint oracle_walk (max max_hls : N) (cur : option open_block) (rs : list rfc_
           | WContinuation _ _ _ => expect_error
           | WUnknown _ _ _ _ => oracle_walk max max_hls None rs' frames' is
           | WHeaders s es false p frag =>
-              match is with
-              | e :: _ => if ievent_is_error e then partial_error_plausible max_hls frag e
-                          else oracle_walk max max_hls (Some (OpenHeaders s es p frag)) rs' frames' is
-              | [] => oracle_walk max max_hls (Some (OpenHeaders s es p frag)) rs' frames' is
-              end
+              oracle_walk max max_hls (Some (OpenHeaders s es p frag)) rs' frames' is
           | WPushPromise s false pr frag =>
-              match is with
-              | e :: _ => if ievent_is_error e then partial_error_plausible max_hls frag e
-                          else oracle_walk max max_hls (Some (OpenPush s pr frag)) rs' frames' is
-              | [] => oracle_walk max max_hls (Some (OpenPush s pr frag)) rs' frames' is
-              end
+              oracle_walk max max_hls (Some (OpenPush s pr frag)) rs' frames' is
           | WHeaders _ _ true _ _ =>
               match is with
               | e :: is' => if ievent_is_error e then header_error_plausible max_hls w
